@@ -897,6 +897,28 @@ func marshalPositions(desc string, k *kindInfo, v reflect.Value, want string) er
 		{"any-field", struct{ A any }{v.Interface()}, nil, `{"A":` + want + `}`},
 		{"any-elem-deterministic", []any{v.Interface()}, []json.Options{json.Deterministic(true)}, `[` + want + `]`},
 	}
+	if !k.Float {
+		// a second entry makes the Deterministic path sort the keys (names are
+		// compared as strings; digits and '-' sort bytewise)
+		other := reflect.New(k.T).Elem()
+		otherName := "7"
+		if want == "7" {
+			otherName = "8"
+		}
+		if k.Signed {
+			other.SetInt(int64(otherName[0] - '0'))
+		} else {
+			other.SetUint(uint64(otherName[0] - '0'))
+		}
+		m2 := reflect.MakeMap(k.MapT)
+		m2.SetMapIndex(v, reflect.ValueOf(0))
+		m2.SetMapIndex(other, reflect.ValueOf(1))
+		exp := `{"` + want + `":0,"` + otherName + `":1}`
+		if otherName < want {
+			exp = `{"` + otherName + `":1,"` + want + `":0}`
+		}
+		positions = append(positions, pos{"map-key-deterministic", m2.Interface(), []json.Options{json.Deterministic(true)}, exp})
+	}
 	if k.Float {
 		// the format option only changes how NaN and infinities are written
 		positions = append(positions,
